@@ -2536,6 +2536,7 @@ class InForeignContentPhase(Phase):
                         "fediffuselighting": "feDiffuseLighting",
                         "fedisplacementmap": "feDisplacementMap",
                         "fedistantlight": "feDistantLight",
+                        "fedropshadow": "feDropShadow",
                         "feflood": "feFlood",
                         "fefunca": "feFuncA",
                         "fefuncb": "feFuncB",
